@@ -972,6 +972,12 @@ int cp_rsa_ver(uint8_t *sig, size_t sig_len, const uint8_t *msg, size_t msg_len,
 		} else {
 			result = 0;
 		}
+
+		/* The signature representative must be smaller than the modulus. */
+		bn_read_bin(m, sig, sig_len);
+		if (bn_cmp(m, pub->crt->n) != RLC_LT) {
+			result = 0;
+		}
 	}
 	RLC_CATCH_ANY {
 		result = 0;
